@@ -13,6 +13,8 @@ Lemma u16_lt : forall n, u16b n = true -> n < 65536.
 Proof. intros n H. unfold u16b, max16 in *. lia. Qed.
 Lemma ml_rt : forall ml, ml < 256 -> ((ml + 160) mod 256 + 96) mod 256 = ml.
 Proof. intros. lia. Qed.
+Lemma ml_minus96 : forall ml, ml < 256 -> 96 <= ml -> (ml + 160) mod 256 = ml - 96.
+Proof. intros. lia. Qed.
 Lemma mod_le8 : forall x, x mod 256 <= max8.
 Proof. intros. unfold max8. lia. Qed.
 Lemma lt_le8 : forall x, x < 256 -> x <= max8.
@@ -270,7 +272,7 @@ Lemma parse_rangepoint : forall lmap ip ml null locid,
   wf_recordb o (RRangePoint lmap ip ml null locid) = true ->
   parse_line o serial (marshal o (RRangePoint lmap ip ml null locid)) =
   Ok (norm (RRangePoint lmap ip ml null locid)).
-Proof using o serial Hip_rt Hip_nil Hip_nosep.
+Proof using o serial Hip_rt Hip_nosep.
   intros. cbn [wf_recordb] in H. split_wf H.
   apply Nat.eqb_eq in W1. apply wf_bytesb_spec in W2.
   destruct null.
